@@ -2,9 +2,14 @@
    Archive.truncate / Archive.remove with the Pareto comparator (acmp fltb) or the epsilon
    comparator (ecmp fltb (fsc eps) dist), i.e. the very functions the C04 theorems speak about.
    The math.pow results of the epsilon tie-break are an oracle: one tape of (argument, result)
-   pairs per individual; the model checks the arguments bit for bit and sums the results. *)
+   pairs per individual; the model checks the arguments bit for bit and sums the results.
+   Individuals carry their design vector: several individuals of a case may share it (exactly
+   or within the 1e-10 of Individual.__eq__).  Archive.add never looks at it (evictions are by
+   position, the duplicate test is on costs_signed); Archive.remove -> list.remove compares with
+   `==`, which is the vector equality of C20 (Model/IndividualEq.v item_eq: same object, or all
+   coordinates of the member's vector within 1e-10 of the solution's). *)
 From Coq Require Import List ZArith Bool Floats Arith.
-From Artap Require Export Base.Ord Base.FloatInst Model.Dominance Model.Archive Run.C01Run.
+From Artap Require Export Base.Ord Base.FloatInst Model.Dominance Model.Archive Model.IndividualEq Run.C01Run.
 From Artap Require Import Proofs.ArchiveParetoInst Proofs.ArchiveEpsInst Proofs.ArchiveExtra.
 Import ListNotations.
 Local Open Scope float_scope.
@@ -19,6 +24,7 @@ Inductive c04_op :=
 Record c04_case := {
   c4_eps : option (list float);                 (* None = ParetoDominance, Some eps = EpsilonDominance(eps) *)
   c4_inds : list (list float * Z);              (* costs_signed of individual i: objectives, marker *)
+  c4_vecs : list (list float);                  (* design vector of individual i (Individual.__eq__ looks at nothing else) *)
   c4_feat : list float;                         (* features[getter] of individual i *)
   c4_tapes : list (list (float * float));       (* pow oracle of individual i (epsilon comparator only) *)
   c4_ops : list c04_op }.
@@ -54,15 +60,21 @@ Definition ind_of (c : c04_case) (i : nat) : c04_ind := (i, nth i (c4_inds c) ([
 Definition feat_of (c : c04_case) (x : c04_ind) : float := nth (fst x) (c4_feat c) 0.
 (* sorted(key=feature): x not after y  iff  not (feature y < feature x) *)
 Definition key_leb (c : c04_case) : c04_ind -> c04_ind -> bool := key_leb_of fltb (feat_of c).
-(* Individual.__eq__ between the individuals of a case (the harness gives them distinct vectors) *)
-Definition id_eq (y s : c04_ind) : bool := Nat.eqb (fst y) (fst s).
+(* member == solution as list.remove evaluates it: identity short-cut, else Individual.__eq__ =
+   abs(member.vector[k] - solution.vector[k]) < 1e-10 for every k (C20's model, binary64 instance:
+   hardware subtraction, abs and <; the costs play no part) *)
+Definition c04_absdiff (a b : float) : float := PrimFloat.abs (a - b).
+Definition c04_tol : float := 0x1.b7cdfd9d7bdbbp-34.   (* 1e-10 *)
+Definition vec_of (c : c04_case) (x : c04_ind) : list float := nth (fst x) (c4_vecs c) [].
+Definition ind_eq_of (c : c04_case) (y s : c04_ind) : bool :=
+  item_eq PrimFloat.ltb c04_absdiff c04_tol (fst y, vec_of c y) (fst s, vec_of c s).
 
 Definition step (cmp : c04_ind -> c04_ind -> nat) (c : c04_case) (a : list c04_ind) (op : c04_op)
   : list c04_ind * nat :=
   match op with
   | OpAdd i => let '(a', ok) := archive_add cmp (aceq fltb) a (ind_of c i) in (a', if ok then 1%nat else 0%nat)
   | OpTrunc size larger => (archive_truncate (key_leb c) a size larger, 2%nat)
-  | OpRemove i => let '(a', ok) := archive_remove id_eq a (ind_of c i) in (a', if ok then 1%nat else 0%nat)
+  | OpRemove i => let '(a', ok) := archive_remove (ind_eq_of c) a (ind_of c i) in (a', if ok then 1%nat else 0%nat)
   end.
 
 Fixpoint run_ops (cmp : c04_ind -> c04_ind -> nat) (c : c04_case) (a : list c04_ind) (ops : list c04_op)
